@@ -30,3 +30,22 @@ def tlsconn_line(rng):
             toks.append("terms=" + ";".join(hx(t) for t in rng.sample(TERMS, rng.choice([1, 1, 2]))))
         blocks.append(" ".join(toks))
     return "tlsconn %s %s | %s" % (src, " ".join(cert), " | ".join(blocks))
+
+
+def tlsdial_line(rng):
+    """the proxy's own TLS connection to a home server at 127.0.0.1: the server's certificate against the server block's conditions
+    (name check against the host connected to or against ServerName, subject CN on or off, matchCertificateAttribute terms)"""
+    cert = []
+    if rng.random() < 0.08:
+        cert.append("ca=other")
+    cert.append("cn=" + hx(rng.choice([b"home.example", b"127.0.0.1", b"other", b"127.0.0.2"])))
+    sans = []
+    for _ in range(rng.choice([0, 1, 1, 2])):
+        sans.append(rng.choice(["dns:" + hx(b"home.example"), "dns:" + hx(b"nobody"), "ip:7f000001", "ip:7f000002", "dns:" + hx(b"127.0.0.1"), "dns:" + hx(b"*.example")]))
+    cert.append("san=" + (",".join(sans) if sans else rng.choice(["none", "."])))
+    blk = ["namecheck=%d" % rng.choice([1, 1, 0]), "cncheck=%d" % rng.choice([0, 0, 1])]
+    if rng.random() < 0.4:
+        blk.append("servername=" + hx(rng.choice([b"home.example", b"nobody", b"127.0.0.1", b"x.example"])))
+    if rng.random() < 0.35:
+        blk.append("terms=" + ";".join(hx(t) for t in rng.sample([b"CN:/^home/", b"CN:/^other$/", b"SubjectAltName:DNS:/\\.example$/", b"SubjectAltName:IP:127.0.0.1", b"SubjectAltName:IP:127.0.0.2"], rng.choice([1, 1, 2]))))
+    return "tlsdial %s | %s" % (" ".join(cert), " ".join(blk))
